@@ -45,11 +45,27 @@ def collide(rng, d):
     return gen_decl(rng)
 
 
-def rule_src(name, decls, cond, flags=""):
+def rule_src(name, decls, cond, flags="", imports=()):
+    imp = "".join('import "%s" ' % m for m in imports)
+    if not decls:
+        return "%s%srule %s { condition: %s }" % (imp, flags, name, cond)
     strings = " ".join(decl_yara("s%d" % i, d) for i, d in enumerate(decls))
     # every string must be referenced (boreal rejects unused strings): add always-false disjuncts
     refs = "".join(" or #s%d < 0" % i for i in range(len(decls)))
-    return "%srule %s { strings: %s condition: (%s)%s }" % (flags, name, strings, cond, refs)
+    return "%s%srule %s { strings: %s condition: (%s)%s }" % (imp, flags, name, strings, cond, refs)
+
+
+def rule_flags(r):
+    return ("global " if r.get("global") else "") + ("private " if r.get("private") else "")
+
+
+MODULE_CONDS = {
+    "pe": ["pe.number_of_sections >= 1", "pe.is_pe", "pe.machine == pe.MACHINE_I386", "defined pe.entry_point"],
+    "elf": ["elf.number_of_sections >= 1", "elf.machine == elf.EM_X86_64", "defined elf.entry_point",
+            "elf.type == elf.ET_DYN"],
+    "math": ["math.max(1, 2) == 2"],
+}
+ASSETS = ["boreal/tests/assets/libyara/data/tiny", "boreal/tests/assets/elf/elf_with_imports"]
 
 
 class C12(Prop):
@@ -66,7 +82,11 @@ class C12(Prop):
             "variants, prefixes / suffixes, the same atom at another literal offset, an encoding of an A string as "
             "a plain string, xor ranges; strings of A and B may be `private` (1/5) or xor; rules of B may be "
             "`private rule`s with strings (1/3); B in the same or another namespace, never global, never "
-            "referenced; every order-preserving interleaving when |A|+|B| <= 4, sampled otherwise. The union is "
+            "referenced; A may start with global rules (one that holds, one that does not: its namespace is disabled while "
+            "B keeps another one alive); reporting with and without include_not_matched_rules; 1/6 of the cases are "
+            "the module family: no strings, every rule its own source text with `import \"pe\"` / `import \"elf\"` "
+            "(the same module imported several times in A, the other one in B), scanned on a real PE / ELF file of "
+            "boreal/tests/assets; every order-preserving interleaving when |A|+|B| <= 4, sampled otherwise. The union is "
             "scanned and compared with A alone and B alone rule by rule and field by field (verdict, reported string "
             "NAMES, private-string filtering, has_xor_modifier, full match lists); the reported strings of every rule "
             "are also compared in Coq with the model's report (shared automaton, match vectors consumed "
@@ -122,7 +142,39 @@ class C12(Prop):
             return rules
         nsA = rng.choice([None, "nsA"])
         nsB = rng.choice([nsA, "nsB", None])
+        if rng.chance(1, 6):
+            # module family: no strings, every rule is its own source text importing its module; a real PE / ELF
+            # file as input.  A imports one module 1-3 times, B the other one (or both).
+            mA = rng.choice(["pe", "elf"])
+            mB = "elf" if mA == "pe" else "pe"
+            A = [{"name": "a%d" % i, "decls": [], "cond": rng.choice(MODULE_CONDS[mA]), "private": False,
+                  "imports": [mA] + (["math"] if rng.chance(1, 4) else [])} for i in range(rng.range(1, 3))]
+            B = [{"name": "b%d" % i, "decls": [], "cond": rng.choice(MODULE_CONDS[mB]), "private": rng.chance(1, 4),
+                  "imports": [mB] + ([mA] if rng.chance(1, 3) else [])} for i in range(rng.range(1, 2))]
+            n, k = len(A) + len(B), len(A)
+            pos = sorted(rng.shuffle(list(range(n)))[:k])
+            order, ia, ib = [], 0, 0
+            for p in range(n):
+                if p in pos:
+                    order.append(["A", ia]); ia += 1
+                else:
+                    order.append(["B", ib]); ib += 1
+            return {"A": A, "B": B, "nsA": nsA, "nsB": nsB, "order": order, "mem": "",
+                    "asset": rng.choice(ASSETS), "include_not_matched": rng.chance(2, 3),
+                    "profile": rng.choice(["speed", "memory"]), "params": {}}
         A = gen_rules("a", rng.range(1, 2), [])
+        if rng.chance(1, 3):
+            # global rules in A: one that holds, then (half of the time) one that does not — the namespace of A
+            # is then disabled while B may keep another namespace alive
+            ga = {"name": "ga", "decls": [plain_decl(b"gaaa")], "cond": "any of them", "private": False, "global": True}
+            A = [ga] + A
+            if rng.chance(1, 2):
+                gb = {"name": "gb", "decls": [plain_decl(b"never-in-the-input")], "cond": "any of them",
+                      "private": rng.chance(1, 4), "global": True}
+                A = A[:1] + [gb] + A[1:] if rng.chance(1, 2) else A + [gb]
+            # independence: a global rule only rules over its own namespace, so B lives in another one
+            if nsB == nsA:
+                nsB = "nsB"
         allA = [d for r in A for d in r["decls"]]
         B = gen_rules("b", rng.range(1, 2), allA)
         # interleaving: which positions of the merged sequence come from A
@@ -140,11 +192,14 @@ class C12(Prop):
             for d in r["decls"]:
                 pool += [e[:48] for e, _ in encodings(d)[:6]] or [bytes.fromhex(d["text"])]
         m = bytearray()
+        if any(r.get("global") for r in A) and rng.chance(3, 4):
+            m += b"gaaa "            # the first global rule of A holds
         for _ in range(rng.range(1, 7)):
             m += rng.choice(pool)
             if rng.chance(1, 2):
                 m += rng.bytes(rng.range(0, 3), b" .aZ\x00")
         return {"A": A, "B": B, "nsA": nsA, "nsB": nsB, "order": order, "mem": bytes(m[:160]).hex(),
+                "include_not_matched": rng.chance(2, 3),
                 "profile": rng.choice(["speed", "memory"]), "params": {}}
 
     def generate(self, ctx, rng, n):
@@ -160,15 +215,16 @@ class C12(Prop):
                 continue
             r = case[side][i]
             out.append({"ns": case["nsA"] if side == "A" else case["nsB"],
-                        "src": rule_src(r["name"], r["decls"], r["cond"], "private " if r.get("private") else "")})
+                        "src": rule_src(r["name"], r["decls"], r["cond"], rule_flags(r), r.get("imports", ()))})
         return out
 
     def hcase(self, case, which):
         p = dict(case.get("params", {}))
         p["compute_full_matches"] = True
-        p["include_not_matched"] = True
+        p["include_not_matched"] = bool(case.get("include_not_matched", True))
+        inp = {"file": os.path.join(core.REPO, case["asset"])} if case.get("asset") else {"mem": case["mem"]}
         return {"rules": self.entries(case, which), "profile": case.get("profile", "speed"), "params": p,
-                "input": {"mem": case["mem"]}}
+                "input": inp}
 
     def execute(self, ctx, cases):
         ou = core.harness_run(ctx.binp, "scan", [self.hcase(c, "AB") for c in cases])
@@ -181,6 +237,9 @@ class C12(Prop):
             ctx.count("private_strings=%d" % sum(1 for r in c["A"] + c["B"] for d in r["decls"] if d.get("private")))
             ctx.count("xor_strings=%d" % sum(1 for r in c["A"] + c["B"] for d in r["decls"] if d["xor"] is not None))
             ctx.count("first=%s" % c["order"][0][0])
+            ctx.count("family=%s" % ("modules" if c.get("asset") else "strings"))
+            ctx.count("globals_in_A=%d" % sum(1 for r in c["A"] if r.get("global")))
+            ctx.count("include_not_matched=%s" % bool(c.get("include_not_matched", True)))
         return [{"union": u, "A": a, "B": b} for u, a, b in zip(ou, oa, ob)]
 
     def term(self, ctx, case, out):
@@ -200,25 +259,32 @@ class C12(Prop):
         if len(ru) != len(a["rules"]) + len(b["rules"]):
             same = False
         rules, reported = [], []
-        for side, i in case["order"]:
+        inm = bool(case.get("include_not_matched", True))
+        # variable order of the compiled scanner: the strings of global rules first, then those of the other
+        # rules, each group in the order the rules were added
+        seq = [(side, i) for side, i in case["order"]]
+        seq = [x for x in seq if case[x[0]][x[1]].get("global")] + [x for x in seq if not case[x[0]][x[1]].get("global")]
+        for side, i in seq:
             r = case[side][i]
             ns = (case["nsA"] if side == "A" else case["nsB"]) or "default"
             sds = glist("{| sd_name := %d; sd_private := %s; sd_decl := %s |}" % (
                 j, gbool(bool(d.get("private"))), g_decl(d)) for j, d in enumerate(r["decls"]))
-            rules.append("(%s, %s)" % (gbool(not r.get("private")), sds))
             ur = ru.get((ns, r["name"]))
-            if r.get("private"):
-                if ur is not None:
-                    same = False        # a private rule must not be reported
+            if r.get("private") and ur is not None:
+                same = False            # a private rule must not be reported
+            if ur is None and inm and not r.get("private"):
+                same = False            # every non-private rule is reported with include_not_matched
+            # with matched-only reporting, which rules are present is compared union vs alone (above); the Coq side
+            # checks the strings of the rules that are there
+            present = ur is not None and not r.get("private")
+            rules.append("(%s, %s)" % (gbool(present), sds))
+            if not present:
                 continue
             strs = []
-            if ur is None:
-                same = False
-            else:
-                for st in ur["strings"]:
-                    mm = re.fullmatch(r"s(\d+)", st["name"])
-                    strs.append("(%d, %s, %s)" % (int(mm.group(1)) if mm else 999, gbool(bool(st["xor"])),
-                                                  glist(g_smatch(x) for x in st["matches"])))
+            for st in ur["strings"]:
+                mm = re.fullmatch(r"s(\d+)", st["name"])
+                strs.append("(%d, %s, %s)" % (int(mm.group(1)) if mm else 999, gbool(bool(st["xor"])),
+                                              glist(g_smatch(x) for x in st["matches"])))
             reported.append(glist(strs))
         ctx.count("same_alone=%s" % same)
         return "C12_case %s %s %s %s %s" % (g_prm(case.get("params", {})), gbytes(bytes.fromhex(case["mem"])),
@@ -238,6 +304,8 @@ class C12(Prop):
                     ta = bytes.fromhex(ta).lower()
                     if any(ta[i:i + 4] in t for i in range(max(1, len(ta) - 3))) or t in ta:
                         shared = True
+        if case.get("asset"):
+            return json.dumps([case["A"], case["B"], case["order"], case["asset"]], sort_keys=True)
         if has_match and shared:
             return json.dumps([case["A"], case["B"], case["order"], case["mem"]], sort_keys=True)
         return None
